@@ -186,6 +186,31 @@ def make_module(seed, index, tier, T):
     return c.obj
 
 
+def class_level_state(cls):
+    """What a module class and a fresh instance of it show besides controller / option tables (C13's subject): behaviours and
+    every other public class attribute that is a set / list / dict / tuple."""
+    out = {}
+    for k in dir(cls):
+        if k.startswith("_") or k in ("controllers", "options"):
+            continue
+        try:
+            v = getattr(cls, k)
+        except Exception:
+            continue
+        if isinstance(v, (set, frozenset)):
+            out[k] = sorted(map(repr, v))
+        elif isinstance(v, (list, tuple)):
+            out[k] = [repr(x)[:60] for x in v][:50]
+        elif isinstance(v, dict):
+            out[k] = sorted(map(repr, v))[:50]
+    try:
+        inst = cls()
+        out["instance.behaviors"] = sorted(map(repr, getattr(inst, "behaviors", ())))
+    except Exception:
+        pass
+    return out
+
+
 def run_type(res, T, spec_, rng, sentinels):
     import rv.api as api
     from rv.modules import MODULE_CLASSES
@@ -193,6 +218,11 @@ def run_type(res, T, spec_, rng, sentinels):
     t = spec.load()[T]
     cls = MODULE_CLASSES[t.mtype]
     desc = {"type": T}
+    class_before = class_level_state(cls)
+    witness = None
+    if T != "Output":
+        witness = cls()
+        witness_before = sorted(map(repr, getattr(witness, "behaviors", ())))
     if T == "Output":
         pa, pb = api.Project(), api.Project()
         alias_scan(res, pa.output, pb.output, "Output:fresh", desc)
@@ -267,6 +297,14 @@ def run_type(res, T, spec_, rng, sentinels):
             differential(res, api.Synth(C4), whole, "deepcopy-of-wired", T, rng, spec_["edits"], desc)
             C5 = copy.deepcopy(A4)
             differential(res, api.Synth(A4), api.Synth(C5), "deepcopy-of-wired-reverse", T, rng, spec_["edits"] // 2, desc)
+    # what the CLASS shows (and a bystander instance made before all this) is as it was
+    res.count("class_level_comparisons")
+    class_after = class_level_state(cls)
+    if class_after != class_before:
+        k = next(k for k in set(class_before) | set(class_after) if class_before.get(k) != class_after.get(k))
+        res.violation(f"C17:leak:{T}:class-level:{k}", f"after constructing, loading and mutating {T} instances the class shows {k} = {class_after.get(k)}, before {class_before.get(k)}", desc)
+    elif witness is not None and sorted(map(repr, getattr(witness, "behaviors", ()))) != witness_before:
+        res.violation(f"C17:leak:{T}:class-level:behaviors", f"a bystander {T} instance shows other behaviours after other instances were mutated", desc)
     # sentinels of every type must not have moved
     for name, (obj, before) in sentinels.items():
         res.count("sentinel_comparisons")
@@ -361,6 +399,37 @@ def run_containers(res, spec_, rng):
             alias_scan(res, A_, B_, f"Pattern:{how}", {"type": "Pattern", "copy": how})
             pattern_differential(res, A_, B_, how, rng, {"type": "Pattern", "copy": how, "attached": attached})
             pattern_differential(res, B_, A_, how + "-reverse", rng, {"type": "Pattern", "copy": how, "attached": attached})
+    # a MultiCtl whose routing is taken over from another one (`mappings=` given the other's table, its Mapping objects or plain
+    # tuples): if the library accepts that, the two are independent afterwards
+    from rv.modules.multictl import MultiCtl as _MC
+    for how in ("mapping-objects", "table-values", "tuples"):
+        src_p = api.Project()
+        amp_ = src_p.new_module(api.m.Amplifier)
+        src_mc = src_p.new_module(_MC, mappings=[(100, 20000, 1, 0, 0, 0, 0, 0), (0, 32768, 2, 0, 0, 0, 0, 0)])
+        src_mc >> amp_
+        try:
+            if how == "mapping-objects":
+                arg = list(src_mc.mappings.values[:2])
+            elif how == "table-values":
+                arg = src_mc.mappings.values
+            else:
+                arg = [(x.min, x.max, x.controller, 0, 0, 0, 0, 0) for x in src_mc.mappings.values[:2]]
+            dst_p = api.Project()
+            dst_mc = dst_p.new_module(_MC, mappings=arg)
+        except Exception:
+            res.count("multictl_routing_copy_refused")
+            continue
+        res.count("multictl_routing_copies")
+        before_src = _snapshot_and_bytes(src_p)
+        dst_mc.mappings.values[0].min = 7
+        dst_mc.mappings.values[1].controller = 5
+        if _snapshot_and_bytes(src_p) != before_src:
+            res.violation(f"C17:leak:MultiCtl:routing-copy:{how}", f"a MultiCtl constructed from another one's routing ({how}): editing its mappings changed the other one's project", {"how": how})
+            continue
+        before_dst = _snapshot_and_bytes(dst_p)
+        src_mc.mappings.values[0].max = 9
+        if _snapshot_and_bytes(dst_p) != before_dst:
+            res.violation(f"C17:leak:MultiCtl:routing-copy-reverse:{how}", f"a MultiCtl constructed from another one's routing ({how}): editing the ORIGINAL's mappings changed the copy's project", {"how": how})
     # a module that belongs to one project is offered to another one through every public spelling of "attach", also with the
     # loader's own keyword: refused, both projects as before
     from rv.errors import ModuleOwnershipError as _MOE2
